@@ -19,19 +19,78 @@ V1_HELP = [P_ + 'v1::' + ANON + 'prohibit<std::optional<std::decay_t<double&>>(c
 V1_DEC = [P_ + 'v1::' + ANON + 'decode_beatgrid'] + [P_ + 'v1::%s::decode' % b for b in
           ('beat_data', 'high_res_waveform_data', 'loops_data', 'overview_waveform_data', 'quick_cues_data', 'track_data')]
 
+ENC_V2 = [P_ + 'v2::' + ANON + 'encode_beatgrid', P_ + 'v2::' + ANON + 'encode_beatgrid#loop0',
+          P_ + 'v2::beat_data_blob::to_blob', P_ + 'v2::track_data_blob::to_blob',
+          P_ + 'v2::overview_waveform_data_blob::to_blob', P_ + 'v2::overview_waveform_data_blob::to_blob#loop0',
+          P_ + 'v2::quick_cues_blob::to_blob', P_ + 'v2::quick_cues_blob::to_blob#loop0', P_ + 'v2::quick_cues_blob::to_blob#loop1', P_ + 'v2::quick_cues_blob::to_blob#loop2',
+          P_ + 'v2::loops_blob::to_blob', P_ + 'v2::loops_blob::to_blob#loop0', P_ + 'v2::loops_blob::to_blob#loop1', P_ + 'v2::loops_blob::to_blob#loop2']
+DEC_V2_LAYOUT = [P_ + 'v2::' + ANON + 'decode_beatgrid', P_ + 'v2::' + ANON + 'decode_beatgrid#loop0', P_ + 'v2::beat_data_blob::from_blob',
+                 P_ + 'v2::track_data_blob::from_blob@layout',
+                 P_ + 'v2::overview_waveform_data_blob::from_blob@layout', P_ + 'v2::overview_waveform_data_blob::from_blob#loop0',
+                 P_ + 'v2::quick_cues_blob::from_blob@layout', P_ + 'v2::quick_cues_blob::from_blob#loop0',
+                 P_ + 'v2::loops_blob::from_blob@layout', P_ + 'v2::loops_blob::from_blob#loop0']
+ENC_V1 = [P_ + 'v1::' + ANON + 'encode_beatgrid', P_ + 'v1::' + ANON + 'encode_beatgrid#loop0', P_ + 'v1::beat_data::encode', P_ + 'v1::track_data::encode',
+          P_ + 'v1::high_res_waveform_data::encode', P_ + 'v1::high_res_waveform_data::encode#loop0',
+          P_ + 'v1::overview_waveform_data::encode', P_ + 'v1::overview_waveform_data::encode#loop0',
+          P_ + 'v1::loops_data::encode', P_ + 'v1::loops_data::encode#loop0', P_ + 'v1::loops_data::encode#loop1',
+          P_ + 'v1::quick_cues_data::encode', P_ + 'v1::quick_cues_data::encode#loop0', P_ + 'v1::quick_cues_data::encode#loop1']
+DEC_V1_LAYOUT = [P_ + 'v1::' + ANON + 'decode_beatgrid@layout', P_ + 'v1::' + ANON + 'decode_beatgrid#loop0', P_ + 'v1::beat_data::decode@layout',
+                 P_ + 'v1::track_data::decode@layout', P_ + 'v1::high_res_waveform_data::decode@layout', P_ + 'v1::high_res_waveform_data::decode#loop0',
+                 P_ + 'v1::overview_waveform_data::decode@layout', P_ + 'v1::overview_waveform_data::decode#loop0',
+                 P_ + 'v1::loops_data::decode@layout', P_ + 'v1::loops_data::decode#loop0',
+                 P_ + 'v1::quick_cues_data::decode@layout', P_ + 'v1::quick_cues_data::decode#loop0'] + V1_HELP
+SEQ = ['lemma:Seq.fixed_size_records', 'lemma:Seq.variable_size_records', 'lemma:Seq.sum', 'lemma:Seq.concatenation', 'lemma:Seq.scan']
+REJECTION = [P_ + 'v2::quick_cues_blob::to_blob#loop1', P_ + 'v2::loops_blob::to_blob#loop1', P_ + 'v1::loops_data::encode#loop1',
+             P_ + 'v1::quick_cues_data::encode#loop1', P_ + 'v1::quick_cues_data::encode', P_ + 'v1::loops_data::decode#loop0', P_ + 'v1::quick_cues_data::decode#loop0']
+FORMAT_ASSUME = [
+    'the format description (models/verif_format.h and the layout contracts) was written from the Engine performance-data layout; that it is what Engine players read is not checkable offline',
+    'loops are replaced by summaries in the function-level layout proofs; the per-iteration facts are proved on the mechanically extracted loop bodies (<fn>#loop<k>) and lifted by the sequencing lemmas Seq.* (inductions discharged by z3); that a C++ for / range-for executes its body once per index in increasing order is the language semantics and is assumed',
+    'structure mode: a caller is checked for WHICH codec it applies to WHICH value at WHICH position (ghost call log); the bytes each codec writes/reads there are that codec\'s own contract (bit-level for the 14 fixed-width codecs)',
+    'string::assign, vector copy and memcpy copy every element (stated for one arbitrary ghost index); deflate/inflate are assumed inverse',
+]
 ZLIB_ASSUME = [
     'zlib inflate/deflate meet the contract transcribed from zlib.h in /verif/models/verif_zlib.h (read only next_in[0,avail_in), write only next_out[0,avail_out), consistent counters, Z_OK only on progress, Z_BUF_ERROR only without progress, every finite input yields finite output); zlib itself is not verified',
     'decompressed payloads are at most 2^31-1 bytes (the Engine length prefix is a signed 32-bit count; larger expansions are treated as allocation failure)',
     'blobs are at most 2^31-1 bytes (SQLite hard limit)',
 ]
 
+SLOT_API = [P_ + 'v2::track_impl::' + f for f in ('hot_cue_at', 'set_hot_cue_at', 'loop_at', 'set_loop_at')] + \
+           [P_ + 'v1::engine_track_impl::' + f for f in ('hot_cue_at', 'set_hot_cue_at', 'loop_at', 'set_loop_at')]
+
 PROPS = {
+    'C15': {
+        'tus': [EDU] + V2 + V1 + [E + 'v2/track_impl.cpp', E + 'v1/engine_track_impl.cpp'],
+        'functions': SLOT_API + [P_ + 'v2::convert::write::waveform'] + ENC_V1 + [k for k in ENC_V2 if '#loop' in k] + [P_ + 'v2::loops_blob::to_blob', P_ + 'v2::overview_waveform_data_blob::to_blob', P_ + 'v2::track_data_blob::to_blob'] + SEQ[:3],
+        'level': 'proof',
+        'assumptions': FORMAT_ASSUME[1:3] + [
+            'PARTIAL: only argument-value undefined behaviour in the non-SQL code is decided: (a) the per-slot cue/loop accessors of both schema generations for every int index over any stored slot vector, (b) convert::write::waveform for every combination of absent/present sample count and rate and every waveform length, (c) the buffer sizing of every blob encoder for any slot count and any label length (payload exactly filled, every write inside the allocation)',
+            'NOT covered: validity of handles to removed rows, anything whose safety depends on database state, termination/safety of the SQL layer, crate operations, string arguments reaching SQL',
+            'the table / storage accessors (track_table::get_*/set_*, engine_track_impl::get_*_data/set_*_data, track_impl::id, sqlite_transaction) are EXTERNAL contract stubs: they return any well-formed blob (any slot count) or throw; the RAII transaction object is dropped by the translator; `this` of the SQL-backed classes is an opaque handle',
+        ],
+        'explanation': 'Every vector index in the slot accessors is proved in range (or out_of_range is raised) for all 2^32 int indices against any slot vector the storage layer may return; no empty optional is dereferenced in the waveform conversion and its entry index w.size()*(2i+1)/2048 is in range for all i < 1024; each encoder allocates exactly the bytes it writes for any slot count / label length (labels over 255 bytes and more than 8 schema-1.x hot cues are rejected before any write).',
+    },
     'C02': {
         'tus': [EDU] + V2 + V1,
-        'functions': [P_ + 'zlib_compress'],
+        'functions': DEC_PRIMS + ENC_PRIMS + [P_ + 'encode_extra', P_ + 'decode_extra', P_ + 'zlib_compress', P_ + 'zlib_uncompress'] + ENC_V2 + DEC_V2_LAYOUT + ENC_V1 + DEC_V1_LAYOUT + SEQ,
         'level': 'proof',
-        'assumptions': [],
-        'explanation': 'under construction',
+        'assumptions': ZLIB_ASSUME + FORMAT_ASSUME,
+        'explanation': 'The independent decoder is the format description in /verif/models/verif_format.h and in the layout contracts: per blob kind, which codec (width, endianness) is applied to which logical field at which position, with positions chained from the start of the payload, exact fill, the 4-byte big-endian length prefix and one complete zlib stream (loops blobs uncompressed). Every encoder and every decoder of both schema generations is proved against it (cbmc): the fixed-width codecs bit-precisely on full domains, every loop through a per-iteration contract on its mechanically extracted body plus a summary, and the lifting of per-iteration facts to whole buffers by the sequencing lemmas (z3 inductions).  Because encoder and decoder are each stated against the same description, a joint drift of both fails two named obligations.',
+    },
+    'C03': {
+        'tus': [EDU] + V2 + V1,
+        'functions': ['harness:roundtrip.int32', 'harness:roundtrip.int64', 'harness:roundtrip.double', 'harness:roundtrip.uint8'] + REJECTION + [P_ + 'v2::track_data_blob::from_blob@accepts_own_encoding', P_ + 'v2::overview_waveform_data_blob::from_blob@accepts_own_encoding'],
+        'level': 'proof',
+        'assumptions': FORMAT_ASSUME + ['C03 is decided on top of the layout contracts of C02 (same contracts, checked by the C02 command): encoder and decoder of a blob kind apply inverse codecs to the same fields at the same positions, so decode(encode(v)) == v follows field by field from the bit-level inverse lemmas proved here; that composition step is an argument over the contracts, not a separately mechanised lemma',
+                        'domain: label lengths, slot counts and vector sizes unbounded (no unwinding); the total payload is at most 2^31-1 bytes'],
+        'explanation': 'Proved here: (1) every fixed-width decoder inverts its encoder and vice versa on the real bodies, bit-exactly for all 2^64 values (doubles by bit pattern); (2) the unencodable values are rejected: a cue/loop label over 255 bytes or (1.x) an empty label raises instead of being written, more than 8 hot cues are rejected in 1.x, a 1.x quick-cue blob is only produced for exactly 8 slots; (3) the reserved empty-slot encodings (offset -1) are the only values read back as absent.  One recorded finding (extra_data on track-data / overview blobs is written but cannot be read back) is exhibited and reported as KNOWN-FINDING.',
+    },
+    'C04': {
+        'tus': [EDU] + V2,
+        'functions': [P_ + 'encode_extra', P_ + 'decode_extra'] + [k for k in DEC_V2_LAYOUT] + [P_ + 'v2::beat_data_blob::from_blob', P_ + 'v2::' + ANON + 'decode_beatgrid#loop0', P_ + 'v2::' + ANON + 'decode_beatgrid', P_ + 'v2::quick_cues_blob::to_blob', P_ + 'v2::loops_blob::to_blob#loop1'],
+        'level': 'proof',
+        'assumptions': FORMAT_ASSUME + ['decided at the blob level only: that every schema-2.x setter is a read-modify-write of exactly one field of a decoded blob (track_impl.cpp, through the SQL-backed table layer) is not covered',
+                        'the encoder side of the re-encoding argument (each field written back by the inverse codec at the same position, payload exactly filled) is the set of to_blob layout contracts checked by the C02 command; here the decoder side and the two places where bytes may legitimately change are re-checked'],
+        'explanation': 'For every payload a schema-2.x decoder accepts: every field is kept verbatim in the decoded value (asserted field by field against the value the codec read at its position), unknown fields and flag bytes included, every trailing byte is captured as extra_data and written back verbatim, counts are taken from the payload, and the only normalisation is the boolean main-cue-adjusted byte (any non-zero reads as true, true is written as 1).',
     },
     'C20': {
         'tus': [E + 'engine.cpp'],
